@@ -79,10 +79,13 @@ def grow(ints, floats, bools, rng=None, limit=None):
     return ni, nf, nb
 
 
-def envs(rng, n):
+def envs(rng, n, sensitive=True):
     """small typed environments: i,j ints; x,y floats; b bool; A int array; X float array"""
     I = [0, 1, -1, 2, 3, 100000, 2147483647, -2147483648, 46341]
     Fl = [0.0, -0.0, 1.0, 0.5, 2.5, -3.0, 1e300, 100000.0]
+    if sensitive:
+        # values on which re-association / constant folding of floating-point operations changes the rounding
+        Fl = Fl + [0.1, 3.0, 1.0 / 3.0, 1e-07, 1e-200, 7.0, 123456.789, 1e16, 0.7, 1e-300, 9007199254740993.0, 0.30000000000000004]
     out = []
     for _ in range(n):
         i, j = rng.choice(I[:3]), rng.choice(I)
@@ -223,6 +226,17 @@ def _check_trees(chk: Check, drv: Driver, trees, kind: str, n_envs: int, peep_cm
                  sample={"kind": kind, "tree": sx(export(t))[:300], "optimised": want[:300]} if changed else None)
         chk.count(kind + ("_changed" if changed else "_unchanged"))
     chk.corr(f"peephole-{kind}", len(trees), mism)
+    if mism and not chk.violations:
+        # failing-input search: the optimiser of the code differs from its validated model on some trees; run
+        # those trees (original vs the code's optimised form) on many more environments, rounding-sensitive
+        # floats included, before settling for "no failing input found"
+        bad = [k for k in range(len(trees)) if sx(replies[2 * k]) != sx(export(opts[k]))][:40]
+        es = envs(rng, 250, sensitive=True)
+        r3 = drv.batch([f"EQUIV 50 {sx(export(trees[k]))} {sx(export(opts[k]))} {sx(es)}" for k in bad])
+        for k, verd in zip(bad, r3):
+            if isinstance(verd, list) and not (verd and verd[0] == "bad-request"):
+                chk.count("failing_input_search_trees")
+                classify(chk, verd, lambda e, k=k: {"kind": kind, "tree": sx(export(trees[k])), "optimised": sx(export(opts[k])), "env": sx(es[e]), "found_by": "directed search after a correspondence break"})
 
 
 def kernel_part(chk: Check, drv: Driver):
